@@ -20,7 +20,7 @@
 -/
 import Keto.Model.Concurrency
 import Keto.Proofs.ConcLemmas
-import Keto.Proofs.FactsTie
+import Keto.Proofs.FactsTieConc
 
 namespace Keto
 open Conc
